@@ -198,6 +198,7 @@ func dkgStepRun(kind string, r *prng.R, s *out.Sink, n, t, msgLen int, honest bo
 	stored := map[string]bool{}
 	storedCommits := 0
 	tamperedFirst := false // a substituted share or key was the first of its sender to arrive
+	mismatchFrom := uint16(0) // a sender whose recorded commitment and recorded key cannot match (one of them was substituted)
 	revealedAtCommits := -1
 	// the start: shares go out, then the first park
 	ev, ok := waitEvent()
@@ -268,6 +269,9 @@ func dkgStepRun(kind string, r *prng.R, s *out.Sink, n, t, msgLen int, honest bo
 			}
 			if what == "substituted" && (kindName == "share" || kindName == "reveal") {
 				tamperedFirst = true
+			}
+			if what == "substituted" && (kindName == "commit" || kindName == "reveal") {
+				mismatchFrom = m.from
 			}
 			ev, ok := waitEvent()
 			if !ok {
@@ -345,7 +349,22 @@ func dkgStepRun(kind string, r *prng.R, s *out.Sink, n, t, msgLen int, honest bo
 			sub := m
 			switch {
 			case len(m.data) > 0 && m.data[0] == 2:
-				sub.data = b2(2, r.Bytes(32))
+				// a commitment that is not the sender's: random, or the real one with one bit flipped at either end,
+				// one byte short, one byte long
+				c := append([]byte{}, m.data[1:]...)
+				switch r.Intn(5) {
+				case 0:
+					c = r.Bytes(32)
+				case 1:
+					c[len(c)-1] ^= 1
+				case 2:
+					c[0] ^= 0x80
+				case 3:
+					c = c[:len(c)-1]
+				default:
+					c = append(c, 0)
+				}
+				sub.data = b2(2, c)
 			case len(m.data) > 0 && m.data[0] == 1:
 				// another participant's share: well-formed, off this sender's polynomial
 				for p, sh := range honestShare {
@@ -398,6 +417,12 @@ func dkgStepRun(kind string, r *prng.R, s *out.Sink, n, t, msgLen int, honest bo
 	// ---- monitors --------------------------------------------------------------------------------------------------
 	if revealedAtCommits >= 0 && revealedAtCommits != n-1 {
 		s.Violate("C05", fmt.Sprintf("the party under test disclosed its public key when it held the commitments of %d of the %d other participants", revealedAtCommits, n-1), desc+"\n"+strings.Join(hist, "\n"))
+	}
+	if vres != nil && mismatchFrom != 0 {
+		s.Violate("C05", fmt.Sprintf("the party under test completed although the key it recorded for party %d does not match the commitment it recorded for that party", mismatchFrom), desc+"\n"+strings.Join(hist, "\n"))
+	}
+	if vres != nil && tamperedFirst && t < n && mismatchFrom == 0 {
+		s.Violate("C05", "the party under test completed although a share off its dealer's polynomial was the first to arrive (the keys cannot lie on one polynomial)", desc+"\n"+strings.Join(hist, "\n"))
 	}
 	if vres != nil {
 		vpk := thresholdPKOf(kind, V, parties, t, msgLen, vres)
